@@ -1,20 +1,27 @@
 (* CaseLib.v — how a correspondence case (one converter: declarations, settings, observed
    generation outcome, observed runs of the compiled output) is compared with the model. *)
-From Coq Require Import List NArith ZArith Bool.
-From GV Require Import Base Ty Conf Extracted Comment Settings Val Plan Eval Gen Emit.
+From Coq Require Import List NArith ZArith Bool String.
+From GV Require Import Base Ty Conf Extracted Comment Settings Val Plan Eval Sig SigUses Funcs Gen Emit.
 Import ListNotations.
 Open Scope N_scope.
 
 Record run_obs := { r_method : N; r_src : val; r_n0 : N;
                     r_pre : option val;                 (* update methods: content of the target struct before the call *)
                     r_out : option val;                 (* None = the call panicked *)
-                    r_shared : list (list pstep) }.     (* result positions whose address belongs to the source *)
+                    r_shared : list (list pstep);       (* result positions whose address belongs to the source *)
+                    r_ctx : ctxs;                       (* values passed for the context parameters, by type *)
+                    r_err : option (N * list (list delem)) }.  (* the call returned an error: failing function, Wrap paths outermost first *)
 
 (* a declared method as written: signature and its goverter: lines (text after the prefix) *)
-Record decl_src := { ds_name : rstr; ds_src : ty; ds_tgt : ty; ds_update : bool; ds_lines : list rstr }.
+Record decl_src := { ds_name : rstr; ds_src : ty; ds_tgt : ty; ds_update : bool; ds_lines : list rstr;
+                     ds_ctx : list ty; ds_err : bool }.     (* context parameter types; error result *)
 
 Record conv_case := { k_id : N; k_env : env; k_global : list rstr; k_lines : list rstr; k_out : N;
                       k_methods : list decl_src;
+                      k_fraws : list fraw;               (* custom functions of the program, as declared *)
+                      k_extend : list extspec;           (* goverter:extend arguments in order, resolved to candidates *)
+                      k_fnames : list (rstr * N);        (* FUNC texts of map ... | FUNC / default FUNC lines -> function *)
+                      k_smeths : list (N * rstr * N);    (* methods of named types usable as field sources *)
                       k_outcome : N;                     (* 0 = generated, 1 = generator panicked, else diagnostic class *)
                       k_imports : option (list N);       (* packages imported by the emitted file (None: not inspected) *)
                       k_funcs : list rstr;               (* names of the emitted methods / functions *)
@@ -49,45 +56,115 @@ Definition RUN_FUEL : nat := 400.
 Definition EQ_FUEL : nat := 200.
 
 (* failure codes: 7 import set differs; 8 set of emitted functions differs; 1 success/failure of generation differs; 6 both fail with different diagnostic classes; 2 result value differs; 3 panic-ness differs; 4 sharing differs;
-   5 model out of fuel / stuck *)
-Definition check_run (e : env) (tab : table) (r : run_obs) : list N :=
+   5 model out of fuel / stuck; 9 one side returned an error, the other did not; 10 the errors differ (failing function or Wrap paths) *)
+Definition delem_eqb (a b : delem) : bool :=
+  match a, b with DField x, DField y => rstr_eqb x y | DIndex i, DIndex j => i =? j | DKey i, DKey j => Z.eqb i j | _, _ => false end.
+Definition err_matches (er : errv) (obs : N * list (list delem)) : bool :=
+  (er_fn er =? fst obs) && list_eqb (list_eqb delem_eqb) (er_wraps er) (snd obs).
+Definition check_err (er : errv) (r : run_obs) : list N :=
+  match r_err r with Some obs => if err_matches er obs then [] else [10] | None => [9] end.
+
+Definition check_run (e : env) (tab : table) (F : ftable) (r : run_obs) : list N :=
   match r_pre r with
   | Some old =>
-    match run_update e tab RUN_FUEL (r_method r) (r_src r) old (r_n0 r) with
-    | Done (v, _) => match r_out r with Some o => if val_eqb EQ_FUEL (erase v) (erase o) then [] else [2] | None => [3] end
-    | Panicked => match r_out r with None => [] | Some _ => [3] end
+    match run_update e tab F RUN_FUEL (r_method r) (r_ctx r) (r_src r) old (r_n0 r) with
+    | Done (v, _) => match r_err r with Some _ => [9] | None =>
+                     match r_out r with Some o => if val_eqb EQ_FUEL (erase v) (erase o) then [] else [2] | None => [3] end end
+    | Panicked => match r_out r, r_err r with None, None => [] | _, _ => [3] end
+    | Errored er => check_err er r
     | _ => [5]
     end
   | None =>
-  match run e tab RUN_FUEL (r_method r) (r_src r) (r_n0 r) with
+  match Eval.run e tab F RUN_FUEL (r_method r) (r_ctx r) (r_src r) (r_n0 r) with
   | Done (v, _) =>
+    match r_err r with Some _ => [9] | None =>
     match r_out r with
     | Some o => (if val_eqb EQ_FUEL (erase v) (erase o) then [] else [2])
                 ++ (if paths_eq (shared_paths (r_n0 r) EQ_FUEL v []) (r_shared r) then [] else [4])
     | None => [3]
-    end
-  | Panicked => match r_out r with None => [] | Some _ => [3] end
+    end end
+  | Panicked => match r_out r, r_err r with None, None => [] | _, _ => [3] end
+  | Errored er => check_err er r
   | _ => [5]
   end
   end.
 
-(* settings in effect, computed by the settings model from the raw lines *)
-Fixpoint decl_methods (cc : smap) (ms : list decl_src) : res (list decl_method) :=
-  match ms with
-  | [] => Ok []
-  | m :: r => do st <- method_state cc (ds_lines m);
-              do rest <- decl_methods cc r;
-              Ok ({| dm_name := ds_name m; dm_src := ds_src m; dm_tgt := ds_tgt m; dm_update := ds_update m;
-                     dm_conf := mconf_of st (ds_update m) |} :: rest)
-  end.
+(* settings in effect, computed by the settings model from the raw lines.  Lines naming a custom function
+   (map ... | FUNC, default FUNC) need the package loader: the case supplies FUNC text -> function, the
+   signature check of method.Parse for that use is the Sig model. *)
+Definition D_SIG : N := 40.
+Definition resolve_fn (names : list (rstr * N)) (txt : rstr) : option N :=
+  match find (fun kv => rstr_eqb (fst kv) txt) names with Some kv => Some (snd kv) | None => None end.
+
+Section lines.
+  Variable raws : list fraw.
+  Variable names : list (rstr * N).
+  Definition set_func (t : rstr) (f : N) (m : mstate) : mstate :=
+    {| ms_common := ms_common m; ms_fields := upd_field t (fun x => {| fm_source := fm_source x; fm_ignore := fm_ignore x; fm_func := Some f |}) (ms_fields m);
+       ms_automap := ms_automap m; ms_raw := ms_raw m; ms_update := ms_update m; ms_context := ms_context m |}.
+  Definition method_line_f (acc : mstate * option N) (line : rstr) : res (mstate * option N) :=
+    let '(m, ctor) := acc in
+    let '(cmd, rest) := command line in
+    if is cmd "map" then
+      let '(lhs, custom) := break_bar rest in
+      match custom with
+      | Some cs =>
+        match fields cs with
+        | [fname] =>
+          match resolve_fn names fname with
+          | Some f => if negb (fn_valid raws opts_map_func f) then Diag D_SIG
+                      else do m' <- method_line m (s2r "map "%string ++ lhs);
+                           match rev (fields lhs) with
+                           | t :: _ => Ok (set_func t f m', ctor)
+                           | [] => Diag D_BAD_VALUE
+                           end
+          | None => Diag D_FUNC_REF
+          end
+        | _ => do m' <- method_line m line; Ok (m', ctor)
+        end
+      | None => do m' <- method_line m line; Ok (m', ctor)
+      end
+    else if is cmd "default" then
+      match fields rest with
+      | [fname] => match resolve_fn names fname with
+                   | Some f => if fn_valid raws opts_default f then Ok (m, Some f) else Diag D_SIG
+                   | None => Diag D_FUNC_REF
+                   end
+      | _ => Diag D_FUNC_REF
+      end
+    else do m' <- method_line m line; Ok (m', ctor).
+
+  Definition method_state_f (cc : smap) (lines : list rstr) : res (mstate * option N) :=
+    fold_res method_line_f lines ({| ms_common := cc; ms_fields := []; ms_automap := []; ms_raw := false; ms_update := []; ms_context := [] |}, None).
+
+  Fixpoint decl_methods (cc : smap) (ms : list decl_src) : res (list decl_method) :=
+    match ms with
+    | [] => Ok []
+    | m :: r => do sc <- method_state_f cc (ds_lines m);
+                do rest <- decl_methods cc r;
+                let c0 := mconf_of (fst sc) (ds_update m) in
+                Ok ({| dm_name := ds_name m; dm_src := ds_src m; dm_tgt := ds_tgt m; dm_update := ds_update m;
+                       dm_conf := {| m_common := m_common c0; m_fields := m_fields c0; m_automap := m_automap c0;
+                                     m_raw_field_settings := m_raw_field_settings c0; m_UpdateTarget := m_UpdateTarget c0;
+                                     m_constructor := snd sc |};
+                       dm_ctx := ds_ctx m; dm_err := ds_err m |} :: rest)
+    end.
+End lines.
+
+Definition case_ftable (c : conv_case) : ftable := map fdecl_of (k_fraws c).
 
 Definition case_generate (c : conv_case) : gres table :=
   match converter_smap (k_global c) (k_lines c) with
-  | Ok cc => match decl_methods cc (k_methods c) with
-             | Ok ms => generate (k_env c) (common_of cc) (k_out c) ms
-             | Diag cl => GDiag cl
-             | Panic s => GPanic s
-             end
+  | Ok cc =>
+    match resolve_ext (k_fraws c) (k_extend c) with
+    | None => GDiag D_SIG
+    | Some exts =>
+      match decl_methods (k_fraws c) (k_fnames c) cc (k_methods c) with
+      | Ok ms => generate (k_env c) (common_of cc) (k_out c) (case_ftable c) (ext_index (case_ftable c) exts) (k_smeths c) ms
+      | Diag cl => GDiag cl
+      | Panic s => GPanic s
+      end
+    end
   | Diag cl => GDiag cl
   | Panic s => GPanic s
   end.
@@ -95,7 +172,7 @@ Definition case_generate (c : conv_case) : gres table :=
 Definition check_case (c : conv_case) : list N :=
   match case_generate c with
   | GOk tab => if k_outcome c =? 0
-               then flat_map (check_run (k_env c) tab) (k_runs c)
+               then flat_map (check_run (k_env c) tab (case_ftable c)) (k_runs c)
                     ++ match k_imports c with
                        | Some obs => (if same_set_N (imports (k_env c) (k_out c) tab) obs then [] else [7])
                                      ++ (if same_set_str (function_names tab) (k_funcs c) then [] else [8])
